@@ -18,6 +18,7 @@ import z3
 
 from . import source
 from .values import (
+    ExtObj,
     BAObj,
     Bound,
     Builtin,
@@ -1002,6 +1003,8 @@ class Path:
                     continue
             return
         spec = self.cfg.loop_spec(self, self.func_stack[-1], self.loop_label(s))
+        if isinstance(it, Ref) and isinstance(self.obj(it), ExtObj):
+            return self.obj(it).ext_for(self, it, s, spec)
         if spec is None:
             raise Unsupported(f'for loop over symbolic iterable without invariant at {self.cur_loc}')
         fr = self.scope[0]
@@ -1688,6 +1691,8 @@ class Path:
                 return len(o.items) > 0
             if isinstance(o, MObj):
                 raise Unsupported('truth of symbolic map')
+            if isinstance(o, ExtObj):
+                return o.ext_truth(self, v)
             if isinstance(o, Obj):
                 from . import models
 
@@ -1718,6 +1723,8 @@ class Path:
                 return len(o.items) if o.items is not None else self.length(o.sym)
             if isinstance(o, DObj):
                 return len(o.items)
+            if isinstance(o, ExtObj):
+                return o.ext_len(self, v)
             if isinstance(o, Obj):
                 from . import models
 
